@@ -10,6 +10,7 @@ import XdslModel.SymbolTable
 import XdslModel.ArgSpec
 import XdslModel.Constraint
 import XdslModel.Affine
+import XdslModel.OpDef
 /-!
 Model registry for the driver: `MODEL <name>` selects a `(state, lineStep)` pair.
 A continuation-passing encoding is used because the state types differ.
@@ -32,6 +33,7 @@ def run? (name : String) : Option Runner :=
   | "arg_spec" => some fun k => k ArgSpec.lineStep ()
   | "constraint" => some fun k => k Constraint.lineStep []
   | "affine" => some fun k => k Affine.lineStep ()
+  | "op_def" => some fun k => k OpDef.lineStep {}
   | _ => none
 
 end Xdsl.Registry
